@@ -123,6 +123,7 @@ pub fn run(e: &'static Engine) {
          after placement and masking; every element of QRCode.data beyond size*size equals Module::data(LIGHT). Non-trivial: every \
          case (each is a distinct cell/payload); distinct by case hash.",
     );
+    e.extend_rule("side == 17+4 x the REPORTED version; every Clone copy (clone, clone_from onto a V40 symbol and onto a small symbol of other level/mask/mode) equals the original byte for byte; row view == data; extreme textures, block look-alikes.");
     e.assume("refmodel function-pattern map is right: drawn from the ISO figures, self-tested against qrcode-crate symbols of all 40 versions");
     crate::engine::run_regress(e, &|c, o| replay(e, c, o));
     let per: u32 = e.tier.pick(1, 8);
